@@ -83,6 +83,93 @@ Proof.
     intros ctx. cbn [k_dec kind_tokenless]. apply streamable_pmap, dec_tokenless_streamable.
 Qed.
 
+(* ---- round trips at the level of the registry (field trees): whatever the writer produces for well-formed
+   fields is read back as the same fields, whatever follows. *)
+Lemma kind_roundtrip_gen {A} (dec : parser A) (enc_body : A -> bytes) (tr : A -> tree) (ot : tree -> A)
+      (tok : Z) (x : A) (body r : bytes) :
+  ot (tr x) = x -> (forall r', dec (enc_body x ++ r') = POk x r') ->
+  Some (tok :: enc_body (ot (tr x))) = Some (tok :: body) -> pmap tr dec (body ++ r) = POk (tr x) r.
+Proof.
+  intros E H He. rewrite E in He. inversion He; subst body. apply pmap_ok. apply H.
+Qed.
+
+Lemma kind_curopen_roundtrip ctx c body r : wf_curopen c ->
+  k_enc kind_curopen (curopen_tree c) = Some (tok_curopen :: body) ->
+  k_dec kind_curopen ctx (body ++ r) = POk (curopen_tree c) r.
+Proof.
+  intros Hwf He. cbn [k_enc k_dec kind_curopen] in *. unfold enc_curopen in He.
+  apply (kind_roundtrip_gen dec_curopen enc_curopen_body curopen_tree curopen_of_tree tok_curopen c body r
+           (curopen_of_tree_tree c) (fun r' => curopen_roundtrip c r' Hwf) He).
+Qed.
+Lemma kind_curclose_roundtrip ctx c body r : wf_curclose c ->
+  k_enc kind_curclose (curclose_tree c) = Some (tok_curclose :: body) ->
+  k_dec kind_curclose ctx (body ++ r) = POk (curclose_tree c) r.
+Proof.
+  intros Hwf He. cbn [k_enc k_dec kind_curclose] in *. unfold enc_curclose in He.
+  apply (kind_roundtrip_gen dec_curclose enc_curclose_body curclose_tree curclose_of_tree tok_curclose c body r
+           (curclose_of_tree_tree c) (fun r' => curclose_roundtrip c r' Hwf) He).
+Qed.
+Lemma kind_curdelete_roundtrip ctx c body r : wf_curdelete c ->
+  k_enc kind_curdelete (curdelete_tree c) = Some (tok_curdelete :: body) ->
+  k_dec kind_curdelete ctx (body ++ r) = POk (curdelete_tree c) r.
+Proof.
+  intros Hwf He. cbn [k_enc k_dec kind_curdelete] in *. unfold enc_curdelete in He.
+  apply (kind_roundtrip_gen dec_curdelete enc_curdelete_body curdelete_tree curdelete_of_tree tok_curdelete c body r
+           (curdelete_of_tree_tree c) (fun r' => curdelete_roundtrip c r' Hwf) He).
+Qed.
+Lemma kind_curfetch_roundtrip ctx c body r : wf_curfetch c ->
+  k_enc kind_curfetch (curfetch_tree c) = Some (tok_curfetch :: body) ->
+  k_dec kind_curfetch ctx (body ++ r) = POk (curfetch_tree c) r.
+Proof.
+  intros Hwf He. cbn [k_enc k_dec kind_curfetch] in *. unfold enc_curfetch in He.
+  apply (kind_roundtrip_gen dec_curfetch enc_curfetch_body curfetch_tree curfetch_of_tree tok_curfetch c body r
+           (curfetch_of_tree_tree c) (fun r' => curfetch_roundtrip c r' Hwf) He).
+Qed.
+Lemma kind_curupdate_roundtrip ctx c body r : wf_curupdate c ->
+  k_enc kind_curupdate (curupdate_tree c) = Some (tok_curupdate :: body) ->
+  k_dec kind_curupdate ctx (body ++ r) = POk (curupdate_tree c) r.
+Proof.
+  intros Hwf He. cbn [k_enc k_dec kind_curupdate] in *. unfold enc_curupdate in He.
+  apply (kind_roundtrip_gen dec_curupdate enc_curupdate_body curupdate_tree curupdate_of_tree tok_curupdate c body r
+           (curupdate_of_tree_tree c) (fun r' => curupdate_roundtrip c r' Hwf) He).
+Qed.
+Lemma kind_curinfo_roundtrip wide ctx c body r : wf_curinfo wide c ->
+  k_enc (kind_curinfo wide) (curinfo_tree c) = Some (tok_curinfo wide :: body) ->
+  k_dec (kind_curinfo wide) ctx (body ++ r) = POk (curinfo_tree c) r.
+Proof.
+  intros Hwf He. cbn [k_enc k_dec kind_curinfo] in *. unfold enc_curinfo in He.
+  apply (kind_roundtrip_gen (dec_curinfo wide) (enc_curinfo_body wide) curinfo_tree curinfo_of_tree (tok_curinfo wide) c body r
+           (curinfo_of_tree_tree c) (fun r' => curinfo_roundtrip wide c r' Hwf) He).
+Qed.
+Lemma kind_curdeclare_roundtrip wide ctx c body r : wf_curdeclare wide c ->
+  k_enc (kind_curdeclare wide) (curdeclare_tree c) = Some (tok_curdeclare wide :: body) ->
+  k_dec (kind_curdeclare wide) ctx (body ++ r) = POk (curdeclare_tree c) r.
+Proof.
+  intros Hwf He. cbn [k_enc k_dec kind_curdeclare] in *. unfold enc_curdeclare in He.
+  apply (kind_roundtrip_gen (dec_curdeclare wide) (enc_curdeclare_body wide) curdeclare_tree curdeclare_of_tree (tok_curdeclare wide) c body r
+           (curdeclare_of_tree_tree c) (fun r' => curdeclare_roundtrip wide c r' Hwf) He).
+Qed.
+Lemma kind_optioncmd_roundtrip ctx o body r : wf_optioncmd o ->
+  k_enc kind_optioncmd (optioncmd_tree o) = Some (tok_optioncmd :: body) ->
+  k_dec kind_optioncmd ctx (body ++ r) = POk (optioncmd_tree o) r.
+Proof.
+  intros Hwf He. cbn [k_enc k_dec kind_optioncmd] in *. unfold enc_optioncmd in He.
+  apply (kind_roundtrip_gen dec_optioncmd enc_optioncmd_body optioncmd_tree optioncmd_of_tree tok_optioncmd o body r
+           (optioncmd_of_tree_tree o) (fun r' => optioncmd_roundtrip o r' Hwf) He).
+Qed.
+(* DYNAMIC: the writer's own refusals (type 0, total at or above MaxInt16 / MaxInt32) are part of enc: no size hypothesis *)
+Lemma kind_dynamic_roundtrip wide ctx d bs r : wf_dynamic_fields d ->
+  k_enc (kind_dynamic wide) (dynamic_tree d) = Some bs ->
+  exists body, bs = tok_dynamic wide :: body /\ k_dec (kind_dynamic wide) ctx (body ++ r) = POk (dynamic_tree d) r.
+Proof.
+  intros Hwf He. cbn [k_enc k_dec kind_dynamic] in *. rewrite dynamic_of_tree_tree in He.
+  destruct (dynamic_roundtrip_enc wide d bs r Hwf He) as [E H]. exists (enc_dynamic_body wide d). split; [exact E|].
+  apply pmap_ok. exact H.
+Qed.
+(* token-less: nothing is ever read back *)
+Lemma kind_tokenless_never_ok tok ctx s t r : k_dec (kind_tokenless tok) ctx s <> POk t r.
+Proof. cbn [k_dec kind_tokenless]. unfold pmap, bind, dec_tokenless. congruence. Qed.
+
 (* the tokens are the ones the code uses *)
 Example kinds_b2_tokens : map k_tok kinds_b2_named = [231; 98; 134; 16; 131; 136; 132; 130; 133; 129; 128; 166; 202; 174].
 Proof. reflexivity. Qed.
